@@ -100,9 +100,10 @@ def reset_group_counter():
 
 
 def symbol_table():
-    """deps / arrays of every code block of the real precomputed_symbols()."""
-    from pysph.sph.equation import precomputed_symbols
-    pre = precomputed_symbols()
+    """deps / arrays of every code block of the table the code generator
+    really uses (Group.pre_comp = precomputed_symbols())."""
+    from pysph.sph.equation import Group
+    pre = Group.pre_comp
     tab = {}
     for n, cb in pre.items():
         tab[n] = dict(deps=sorted(x for x in cb.symbols
@@ -398,6 +399,11 @@ def main():
     import pysph.base.nnps         # noqa: F401
     import pysph.sph.acceleration_eval  # noqa: F401
     mode = sys.argv[1]
+    if mode == 'list':
+        import c02_classes
+        with open(sys.argv[2], 'w') as fp:
+            json.dump(c02_classes.listing(), fp)
+        return
     jobs = [json.loads(l) for l in open(sys.argv[2])]
     workdir = sys.argv[4]
     os.makedirs(workdir, exist_ok=True)
